@@ -73,7 +73,11 @@ def cases(seed, tier):
     else:
         # replay-idempotent points: a checkpoint and an explicit set of every motor before each reading
         pg.idempotent = True
-        body = pg.generic(cleanup=0.3)
+        if rng.random() < 0.35:
+            # two runs open at once (interleaved, or a snapshot run nested inside the other one)
+            body = pg.generic(cleanup=0.3, runs=2, nested=1.0)
+        else:
+            body = pg.generic(cleanup=0.3)
         # monitors are excluded from the comparison but allowed in the workload
     case = {
         "prop": ID,
@@ -111,6 +115,28 @@ def cases(seed, tier):
                         i["args"] = generic.trip_args(rng)
             decs.append(d)
         c["script"][ci]["decisions"] = decs
+        c["script"][ci]["final"] = "resume"
+        yield c
+    # interruptions placed inside the state another run's close leaves behind: a pause or suspension landing on the
+    # first replayable message of the outer plan after an inner run (its own run key) was closed
+    ms = [e for e in dv.of("msg")]
+    spots = []
+    for i in range(len(ms) - 1):
+        if ms[i].d["cmd"] == "close_run" and ms[i].d["run"] is not None:
+            for k in (1, 2):
+                if i + k < len(ms) and ms[i + k].d["cmd"] not in ("checkpoint", "close_run", "open_run"):
+                    spots.append(ms[i + k].d["n"])
+                else:
+                    break
+    for j, n_ in enumerate(spots[:3]):
+        c = copy.deepcopy(case)
+        c["variant"] = f"after-inner-close-{j}"
+        kind = rng.choice(kinds)
+        inj = {"id": "x0", "at": {"msg": n_, "plus": rng.choice([0, 1, 2])}, "do": kind}
+        if kind == "trip":
+            inj["args"] = generic.trip_args(rng)
+        c["script"][ci]["inject"] = [inj]
+        c["script"][ci]["decisions"] = [{"do": "resume"}] * 3
         c["script"][ci]["final"] = "resume"
         yield c
 
